@@ -15,7 +15,8 @@ def mkcfg(c):
 
 ATTR_POOL = [('attr', 'title', 'v', 'raw'), ('attr', 'title', 'a b', 'dq'), ('attr', 'data-x', 'y', 'sq'), ('attr', 'lang', None, None), ('attr', 'rel', 'e', 'expr'),
              ('attr', 'title', 'w', 'raw'), ('attr', 'data-x', 'z z', 'dq'), ('bool', 'checked'), ('bool', 'foo'), ('implied', 'dir', None), ('implied', 'dir', 'ltr'),
-             ('attr', 'class', 'k', 'raw'), ('attr', 'id', 'j', 'raw'), ('attr', 'disabled', None, None), ('attr', 'for', 'f', 'raw'), ('attr', 'class', '', 'dq')]
+             ('attr', 'class', 'k', 'raw'), ('attr', 'id', 'j', 'raw'), ('attr', 'disabled', None, None), ('attr', 'for', 'f', 'raw'), ('attr', 'class', '', 'dq'),
+             ('implbool', 'b', None), ('implbool', 'hidden', 'x'), ('attr', 'title', None, None)]
 TEXT_POOL = ['txt', 'a b', 'x > y + z', 'item', 'l1', ' sp ']
 
 
@@ -265,6 +266,7 @@ def spec_attrs(mentions, cfg_options, syntax_attr_map):
         elif kind == 'id': name, val, vt, b_, imp = 'id', m[1], 'raw', False, False
         elif kind == 'attr': name, val, vt, b_, imp = m[1], m[2], ('expr' if m[3] == 'expr' else (m[3] or 'raw')), False, False
         elif kind == 'bool': name, val, vt, b_, imp = m[1], None, 'raw', True, False
+        elif kind == 'implbool': name, val, vt, b_, imp = m[1], m[2], 'raw', True, True
         else: name, val, vt, b_, imp = m[1], m[2], 'raw', False, True
         if name not in info:
             order.append(name); info[name] = {'vals': [val], 'vt_first': vt, 'vt_last': vt, 'bool': b_, 'implied': imp}
@@ -328,10 +330,11 @@ def oracle_C03(case, o):
 
 
 # ------------------------------------------------------------------------------------------------- C04
-TEXT_TPL = ['x{%s}', 'x[title=v]{%s}>em', 'ul>li{%s}*2', 'p>b{%s}+i', '(x.c{%s}>i)+b']
+TEXT_TPL = ['x{%s}', 'x[title=v]{%s}>em', 'ul>li{%s}*2', 'p>b{%s}+i', '(x.c{%s}>i)+b', 'x{%s}/', 'div>br{%s}', 'y>x{%s}/+b']
 WRAP_LINES = ['foo', 'bar baz', '', '   ', '  indented  ', '*3', '$$', 'a>b+c', '${1}', ')', '[x=y]', '{t}', 'item $#', '\\', 'é ü', 'x^2', 'a.b#c', '\t tab']
 # (abbreviation, has implicit repeater, where the text goes: list of (tag carrying the text, prefix) per copy)
-WRAP_TPL = [('ul>li*', True), ('ul>li*>a', True), ('ul>li[title=$#]*>b{x $#}', True), ('p*+em', True), ('div>p', False), ('x', False), ('div>span*2', False), ('(tr>td)+b', False)]
+WRAP_TPL = [('ul>li*', True), ('ul>li*>a', True), ('ul>li[title=$#]*>b{x $#}', True), ('p*+em', True), ('div>p', False), ('x', False), ('div>span*2', False), ('(tr>td)+b', False),
+            ('ul>li*>span*2{$#}', True), ('ul>li*>(b{$#}+i)*2', True), ('hr*', True), ('div>hr/', False)]
 
 
 def gen_w(rnd, n):
@@ -382,7 +385,7 @@ def first_text_after(outp, tag):
 def oracle_C04_text(case, o):
     if o[0] != 'ok': return ['no-output| expand(%r) -> %s %s' % (case['s'], o[0], o[1])]
     want = decode(case['w'])
-    tag = ['x', 'x', 'li', 'b', 'x'][case['tpl']]
+    tag = ['x', 'x', 'li', 'b', 'x', 'x', 'br', 'x'][case['tpl']]
     got = first_text_after(o[1], tag)
     if got is None: return ['text| expand(%r): no <%s> in %r' % (case['s'], tag, o[1])]
     ok = got == want or (got.startswith(want) and not got[len(want):].strip()) or (not want.strip() and not got.strip())
@@ -403,13 +406,16 @@ def oracle_C04_wrap(case, o):
         if k == 0: want = '<ul>' + ''.join('<li>%s</li>' % l for l in lines) + '</ul>'
         elif k == 1: want = '<ul>' + ''.join('<li><a href="">%s</a></li>' % l for l in lines) + '</ul>'
         elif k == 2: want = '<ul>' + ''.join('<li title="%s"><b>x %s</b></li>' % (l, l) for l in lines) + '</ul>'
-        else: want = ''.join('<p>%s</p>' % l for l in lines) + '<em></em>'
+        elif k == 3: want = ''.join('<p>%s</p>' % l for l in lines) + '<em></em>'
+        elif k == 8: want = '<ul>' + ''.join('<li><span>%s</span><span>%s</span></li>' % (l, l) for l in lines) + '</ul>'
+        elif k == 9: want = '<ul>' + ''.join('<li><b>%s</b><i></i><b>%s</b><i></i></li>' % (l, l) for l in lines) + '</ul>'
+        else: want = ''.join('<hr>%s</hr>' % l for l in lines)
         if not lines:
             # no non-blank line: zero copies of the repeated element
-            want = {0: '<ul></ul>', 1: '<ul></ul>', 2: '<ul></ul>', 3: '<em></em>'}[k]
+            want = {0: '<ul></ul>', 1: '<ul></ul>', 2: '<ul></ul>', 3: '<em></em>', 8: '<ul></ul>', 9: '<ul></ul>', 10: ''}[k]
     else:
         tx = ('\n'.join(text) if isinstance(text, list) else text).strip()
-        want = {4: '<div><p>%s</p></div>', 5: '<x>%s</x>', 6: '<div><span></span><span>%s</span></div>', 7: '<tr><td></td></tr><b>%s</b>'}[k] % tx
+        want = {4: '<div><p>%s</p></div>', 5: '<x>%s</x>', 6: '<div><span></span><span>%s</span></div>', 7: '<tr><td></td></tr><b>%s</b>', 11: '<div><hr>%s</hr></div>'}[k] % tx
     norm = lambda t: re.sub(r'\$\{\d+\}', '', t)      # tabstops of empty leaves / attributes (and the same shape inside supplied text, on both sides)
     got = norm(outp); want = norm(want)
     if sq(got) != sq(want): return ['wrap| expand(%r, text=%r) = %r, expected (modulo white space) %r' % (case['s'], text, outp, want)]
@@ -602,7 +608,15 @@ def oracle_C12(case, o):
     if len(set(outs)) != 1: v.append('self-closing| expand(%r): self-closing styles differ in more than the slash: %r' % (case['s'], outs))
     # (4) indentation = number of elements open at that point
     opt = Config(mkcfg(case['c'])).options
-    if opt.get('output.format') and not opt.get('output.formatSkip') or (opt.get('output.format') and not any(nm in case['s'] for nm in opt.get('output.formatSkip'))):
+    forest = mk.unroll(mk.flat(case['seq']))
+    mk.implicit_names(forest, None, [x.lower() for x in opt.get('inlineElements')])
+    names = set()
+
+    def collect(f):
+        for el in f:
+            names.add(el['name'].lower()); collect(el['kids'])
+    collect(forest)
+    if opt.get('output.format') and not (names & set(x.lower() for x in opt.get('output.formatSkip'))):     # no element exempted through formatSkip
         nl = opt.get('output.newline'); ind = opt.get('output.indent'); bi = opt.get('output.baseIndent')
         lines = o[1].split(nl)
         depth = 0
